@@ -2782,13 +2782,23 @@ func main() {
 	js := map[string]any{"known_keys": known, "accesses": al, "lock_order": ol, "unresolved": unres, "roots": rn,
 		"address_escapes": a.addrEscapes, "atomic_fields": atomicFields, "fresh_receiver_helpers": freshCalls, "fresh_receiver_accesses_skipped": freshSkipped, "functions_reached": len(reachedFns), "functions_total": len(a.order), "guarded_fields": len(guards),
 		"acquisitions": aql, "abstract_locks": a.abstract, "acquisitions_outside_rank_hint": leftOut, "gate_violations": gateViolations, "bbolt_read_transactions_left_out": a.readTxns}
-	os.MkdirAll(filepath.Join(verif, "work"), 0o755)
-	f, err := os.Create(filepath.Join(verif, "work", "locktable.json"))
-	if err == nil {
-		enc := json.NewEncoder(f)
-		enc.SetIndent("", " ")
-		enc.Encode(js)
-		f.Close()
+	// the side file, and a copy of its own for a tagged run (bin/try-seed, mutant
+	// runs): another check regenerating the shared file meanwhile must not change
+	// what this run's hook reads
+	jsPaths := []string{filepath.Join(verif, "work", "locktable.json")}
+	if tag := os.Getenv("VERIF_WORK_TAG"); tag != "" {
+		jsPaths = append(jsPaths, filepath.Join(verif, "work", tag, "locktable.json"))
+	}
+	for _, jp := range jsPaths {
+		os.MkdirAll(filepath.Dir(jp), 0o755)
+		f, err := os.Create(jp + ".tmp")
+		if err == nil {
+			enc := json.NewEncoder(f)
+			enc.SetIndent("", " ")
+			enc.Encode(js)
+			f.Close()
+			os.Rename(jp+".tmp", jp)
+		}
 	}
 	bad := 0
 	for _, o := range al {
